@@ -151,6 +151,7 @@ Record cfg := {
   c_hmac : option str;          (* per-upstream shared key from SSO_CONFIG_<SERVICE>_SIGNING_KEY *)
   c_skip : bool;                (* skip_request_signing *)
   c_pass_token : bool;          (* pass_access_token *)
+  c_inject : list (str * str);  (* inject_request_headers (a Go map: canonical keys distinct) *)
   c_cookie_name : str;
   c_preserve_host : bool;
   c_thost : str;                (* `to`: host *)
@@ -194,16 +195,21 @@ Definition identity_headers : list str :=
   [x_forwarded_user; x_forwarded_email; x_forwarded_groups; x_forwarded_access_token].
 Definition scrub (r : request) : request := with_headers r (hdel_all identity_headers (r_headers r)).
 
-(* Authenticate, oauthproxy.go:754-765 (InjectRequestHeaders is empty in the documented examples) *)
+(* Authenticate, oauthproxy.go:754-765: `for key, val := range InjectRequestHeaders { req.Header.Set(key, val) }`
+   (Header.Set canonicalises the key), then the identity headers — so an injected identity header is
+   overwritten, an injected Authorization / Date / Content-Type / Cookie replaces the client's. All of it
+   happens before the handler chain, i.e. before the request is signed. *)
+Definition inject_headers (inj : list (str * str)) (h : headers) : headers :=
+  fold_left (fun h kv => hset (canonical_key (fst kv)) [snd kv] h) inj h.
 Definition inject (c : cfg) (i : identity) (r : request) : request :=
-  let h := r_headers r in
+  let h := inject_headers (c_inject c) (r_headers r) in
   let h := hset x_forwarded_user [i_user i] h in
   let h := if c_pass_token c && negb (is_empty (i_token i))
            then hset x_forwarded_access_token [i_token i] h else h in
   let h := hset x_forwarded_email [i_email i] h in
   let h := hset x_forwarded_groups [join [comma] (i_groups i)] h in
   with_headers r h.
-(* [i] = None: a whitelisted (skip_auth_regex) request, which skips Authenticate *)
+(* [i] = None: a whitelisted (skip_auth_regex) request, which skips Authenticate (and with it the injection) *)
 Definition inject_opt (c : cfg) (i : option identity) (r : request) : request :=
   match i with Some i => inject c i (scrub r) | None => scrub r end.
 
@@ -384,6 +390,44 @@ Definition verify_hmac (covh : list str) (key : str) (r : request) : N :=
   match r_gap_sig r with
   | None => 0
   | Some t => if mac_eqb t (Mac key (mac_input covh r)) then 3 else 4
+  end.
+
+(* ------------------------------------------------------------------ configuration of the HMAC key *)
+(* options.go parseEnvironment: every SSO_CONFIG_<NAME>=<value> becomes (lower(<NAME>), value);
+   [environ] lists (<NAME>, value) pairs. *)
+Definition upper_ascii (s : str) : str := map upper_byte s.
+Definition env_vars (environ : list (str * str)) : list (str * str) :=
+  map (fun e => (lower_ascii (fst e), snd e)) environ.
+Fixpoint env_lookup (k : str) (vars : list (str * str)) : option str :=
+  match vars with [] => None | (k', v) :: t => if str_eqb k' k then Some v else env_lookup k t end.
+
+(* cleanWhiteSpace, proxy_config.go:425-428: TrimSpace, then every run of white space becomes "_"
+   (ASCII white space here; the generator uses no other) *)
+Fixpoint collapse_ws (in_ws : bool) (s : str) : str :=
+  match s with
+  | [] => []
+  | c :: s' => if is_space c then (if in_ws then collapse_ws true s' else 95 :: collapse_ws true s')
+               else c :: collapse_ws false s'
+  end.
+Definition clean_ws (s : str) : str := collapse_ws false (trim s).
+Definition signing_key_suffix : str := [95;115;105;103;110;105;110;103;95;107;101;121]. (* "_signing_key" *)
+
+Inductive hmac_config := HmacOff | HmacOn (key : str) | HmacConfigError.
+
+(* generateHmacAuth, proxy_config.go:430-443: exactly two ':'-separated components; the first must be a
+   name hmacauth.DigestNameToCryptoHash accepts ([algs]: the lower-case names of the hashes linked
+   into the binary — an oracle); the second is the key, byte for byte *)
+Definition generate_hmac (algs : list str) (spec : str) : hmac_config :=
+  match split_on 58 spec with
+  | [a; secret] => if mem_str a algs then HmacOn secret else HmacConfigError
+  | _ => HmacConfigError
+  end.
+(* loadServiceConfigs, proxy_config.go:213-228: the key is looked up under "<Service>_signing_key" with
+   Service = cleanWhiteSpace(service) — NOT lower-cased, whereas the variable names are *)
+Definition hmac_of_config (algs : list str) (service : str) (environ : list (str * str)) : hmac_config :=
+  match env_lookup (clean_ws service ++ signing_key_suffix) (env_vars environ) with
+  | None => HmacOff
+  | Some spec => generate_hmac algs spec
   end.
 
 (* ------------------------------------------------------------------ guards used by the theorems *)
